@@ -53,6 +53,8 @@ class Monitor:
         # k-th FIRST-added source is srcs[k]; repeats are interleaved and must be ignored
         for k in range(n):
             em.add(srcs[k])
+            if cfg["shuffle"] % 2:
+                next(iter(em.sources()), None) if k % 2 else list(em.sources())     # queries while the map is being filled
             for _ in range(r.randint(0, 2)):
                 em.add(srcs[r.randint(0, k)])
         mon = event.Monitor(em, trigger=cfg.get("trigger", "level"))
